@@ -18,7 +18,7 @@ IMPORTS = "Require Import V.gen.Consts V.model.ClientRead V.model.SelfEnc."
 THEOREMS = ["se_constants", "partition_exact", "src_chunk_bound", "src_chunk_le_max",
             "src_chunk_le_max_at_boundary_refuted", "roundtrip", "pack_terminates", "pack_side_condition",
             "fetch_order_irrelevant", "deterministic", "content_addressed", "root_chunk_le_max",
-            "produced_chunk_le_max_refuted", "too_small_rejected", "codec_laws_satisfiable"]
+            "produced_chunk_le_max_refuted", "produced_chunk_le_max_outside_known", "too_small_rejected", "codec_laws_satisfiable"]
 RULE = ("lengths 0-9 and every size-class boundary of the partition (3*MAX, k*MAX for k=4..6, each -1/0/+1, plus "
         "lengths inside each class) for the shipped MAX_CHUNK_SIZE; for the MAX_CHUNK_SIZE=1024 build additionally "
         "the lengths at which the data map starts to need a second and a third level (+-1 chunk); contents "
@@ -213,7 +213,10 @@ def nontrivial(c, o):
 
 
 def run(ctx):
+    from props.C15 import pipeline_retry
     ctx.regen_consts()
+    binary = ctx.cargo_build("c15")       # the long steps first: keeps Coq build and model evaluation close together
+    small = build_small(ctx) if binary else None
     ctx.prove("props/C14.v", THEOREMS, extra_trusted=[
         "model coq/model/SelfEnc.v (hand-written) tied to self_encryption 0.30.0's partition arithmetic and to "
         "autonomi's encrypt / pack_data_map / fetch_from_data_map(_chunk) by this run's correspondence",
@@ -221,8 +224,6 @@ def run(ctx):
         "translator tools/extract_consts.py: MAX_CHUNK_SIZE default, MIN_CHUNK_SIZE, MIN_ENCRYPTABLE_BYTES from the "
         "vendored self_encryption sources pinned by Cargo.lock",
         "harness/crates/c15 (Rust driver; in-memory record source with shuffled completion), tools/props/C14.py"])
-    binary = ctx.cargo_build("c15")
-    small = build_small(ctx) if binary else None
     corpus = ctx.corpus()
     cases_d = [c for c in corpus if c.get("build", "default") == "default"]
     cases_s = [c for c in corpus if c.get("build") == "small"]
@@ -230,7 +231,7 @@ def run(ctx):
         cases_d += gen_default(ctx, 1048576)
         cases_s += gen_small(ctx)
     rel = "self_encryption partition + autonomi pack_data_map levels == SelfEnc.{num_chunks, chunk_size, start_end, pack acceptor}"
-    ctx.pipeline(cases_d, binary, oracle, model_term, IMPORTS, nontrivial=nontrivial, show=show, relation=rel)
+    pipeline_retry(ctx, "props/C14.v", cases_d, binary, oracle, model_term, IMPORTS, nontrivial=nontrivial, show=show, relation=rel)
     if small:
-        ctx.pipeline(cases_s, small, oracle, model_term, IMPORTS, nontrivial=nontrivial, show=show,
+        pipeline_retry(ctx, "props/C14.v", cases_s, small, oracle, model_term, IMPORTS, nontrivial=nontrivial, show=show,
                      relation=rel + " [MAX_CHUNK_SIZE=1024 build]")
